@@ -1178,3 +1178,36 @@ pub fn safe_cut_sem(l: &[u8], x: &[u8], r: &[u8]) -> bool {
     expect.extend(ts2);
     norm_text(&tsw) == norm_text(&expect) && rw == r2
 }
+
+/// What `EncodeFilterBody::filter` returns for each write and `end()` at the end (a replica of
+/// src/filter/encoding/encode.rs: same constructors and parameters, write_all + flush + take the buffer; finish).
+pub fn encoder_outputs(enc: &str, writes: &[Vec<u8>]) -> Option<(Vec<Vec<u8>>, Vec<u8>)> {
+    use std::io::Write;
+    let mut outs = Vec::new();
+    macro_rules! drive {
+        ($e:expr, $finish:expr) => {{
+            let mut e = $e;
+            for w in writes {
+                e.write_all(w).ok()?;
+                e.flush().ok()?;
+                let mut buf = Vec::new();
+                std::mem::swap(&mut buf, e.get_mut());
+                outs.push(buf);
+            }
+            let end: Vec<u8> = $finish(e)?;
+            Some((outs, end))
+        }};
+    }
+    match enc {
+        "gzip" => drive!(flate2::write::GzEncoder::new(Vec::new(), flate2::Compression::default()), |mut e: flate2::write::GzEncoder<Vec<u8>>| {
+            e.try_finish().ok()?;
+            e.finish().ok()
+        }),
+        "deflate" => drive!(flate2::write::ZlibEncoder::new(Vec::new(), flate2::Compression::default()), |mut e: flate2::write::ZlibEncoder<Vec<u8>>| {
+            e.try_finish().ok()?;
+            e.finish().ok()
+        }),
+        "br" => drive!(brotli::CompressorWriter::new(Vec::new(), 4096, 11, 22), |e: brotli::CompressorWriter<Vec<u8>>| Some(e.into_inner())),
+        _ => None,
+    }
+}
